@@ -482,6 +482,59 @@ def _follower(prog, m, cls, depth=0, seen=()):
     return follow
 
 
+def _semantic_id(prog, m, c, fn, idname, extra):
+    """the same question on the evaluated method (helpers, enums, getattr with constant names, methodcaller ... are unfolded by E1): on every
+    returning path the identifier is used as the key of a raising lookup, handed to a delegated query, or established by a membership / is-the-
+    reference test.  True / False / None with a reason"""
+    from ..terms import Evaluator, paths_of, tkey, Poly, RAISE
+    from ..api import A
+    ev = Evaluator(prog); ev.self_class = (m, c)
+    args = [A('self'), A(idname)] + [A(a.arg) for a in fn.args.args[2:]]
+    try:
+        t = ev.call_fn(fn, m, args, {}, {'__parent__': None}, 1)
+    except Exception as e:
+        return None, f'evaluation failed: {e!r:.80}'
+    idk = tkey(A(idname)); ids = repr(idk)
+    def uses(k):
+        # a raising subscript keyed by the identifier, or a query / index call that receives it
+        found = []
+        def walk(x):
+            if isinstance(x, tuple):
+                if len(x) == 3 and x[0] == '[]' and ids in repr(x[2]): found.append('raising lookup')
+                if len(x) >= 3 and x[0] == 'call' and isinstance(x[1], tuple) and x[1][:1] == ('.',) and isinstance(x[1][-1], str) \
+                        and (x[1][-1].startswith(DELEGATES) or x[1][-1] in DELEGATES) and ids in repr(x[2:]): found.append('delegated to ' + x[1][-1] + '()')
+                for y in x: walk(y)
+        walk(k)
+        return found
+    verdicts = []
+    from ..terms import _is_callable_term
+    for pc, leaf in paths_of(t):
+        if leaf is RAISE: continue
+        if _is_callable_term(leaf) and not isinstance(leaf, Poly):
+            # a returned function (a time function): what it computes when called
+            try: leaf = ev.apply(leaf, [A('__t')], {}, m, 1)
+            except Exception: pass
+        why = uses(tkey(leaf))
+        other_use = False
+        for g, pol in pc:
+            gk = tkey(g); r_ = repr(gk)
+            if ids not in r_: continue
+            plain_test = isinstance(gk, tuple) and (gk[:2] == ('opq', 'in') and gk[2] == idk or gk[:3] == ('opq', 'cmp', 'Eq'))
+            if isinstance(gk, tuple) and gk[:2] == ('opq', 'in') and gk[2] == idk and pol: why.append('membership established')
+            elif isinstance(gk, tuple) and gk[:3] == ('opq', 'cmp', 'Eq') and pol and ('zero' in r_ or 'ground' in r_): why.append('equals the reference label')
+            elif plain_test: pass          # a membership / equality test that FAILED on this path establishes nothing
+            else:
+                u_ = uses(gk); why += u_
+                if not u_: other_use = True
+        if why: verdicts.append(True)
+        elif ids not in repr(tkey(leaf)) and not other_use: verdicts.append(False)
+        else: verdicts.append(None)
+    if not verdicts: return None, 'no returning path was evaluated'
+    if all(v is True for v in verdicts): return True, f'{len(verdicts)} evaluated path(s): the identifier keys a raising lookup / reaches a delegated query on each'
+    if any(v is False for v in verdicts): return False, 'an evaluated path returns without using the identifier at all'
+    return None, 'an evaluated path uses the identifier in a way that was not recognised'
+
+
 def query_ids(rep, prog):
     n = 0
     for short in QUERY_SCOPE:
@@ -505,8 +558,15 @@ def query_ids(rep, prog):
                     bad, allp = _unvalidated_path(fn, idname, _follower(prog, m, c))
                 except TooManyPaths:
                     rep.ob('R19.id', key, None, 'too many paths', site); continue
+                sem = None
+                if bad is not None:
+                    sem = _semantic_id(prog, m, c, fn, idname, None)
                 if bad is None:
                     rep.ob('R19.id', key, True, f'{sum(1 for p in allp if p[-1][0] == "return")} returning path(s), identifier validated on each', site)
+                elif sem[0] is True:
+                    rep.ob('R19.id', key, True, sem[1], site)
+                elif sem[0] is None:
+                    rep.ob('R19.id', key, None, f'not decided: {sem[1]}', site)
                 else:
                     gs = [f"{ast.unparse(s[1])[:60]}={'T' if s[2] else 'F'}" for s in bad if s[0] == 'guard']
                     rep.ob('R19.id', key, False,
